@@ -38,6 +38,7 @@ type fsHandle struct {
 }
 
 type modelFS struct {
+	root    map[string]*fsNode
 	nodes   []*fsNode
 	handles []*fsHandle
 	log     []string
@@ -100,6 +101,16 @@ func cleanPath(s str) str {
 
 func (fs *modelFS) lookup(m *Machine, fr *frame, name str) *fsNode {
 	name = cleanPath(name)
+	if c, ok := name.concrete(); ok && (c == "." || c == "/") {
+		// the working directory and the root exist and are directories (they are not entries of any listing)
+		if fs.root == nil {
+			fs.root = map[string]*fsNode{}
+		}
+		if fs.root[c] == nil {
+			fs.root[c] = &fsNode{name: str{s: c}, isDir: true}
+		}
+		return fs.root[c]
+	}
 	for _, n := range fs.nodes {
 		if n.deleted {
 			continue
